@@ -160,12 +160,24 @@ def f_unique(i, v, case_sensitive=False, attribute=None):
     return out
 
 
+def f_attr(i, v, name):
+    """docs: 'foo|attr("bar") works like foo.bar just that always an attribute is returned and
+    items are not looked up.'"""
+    m = _U()
+    if m.is_undef(v):
+        m.undef_error(v)
+    try:
+        return getattr(v, name)
+    except AttributeError:
+        return m.Undef(name)
+
+
 FILTERS = {
     "default": f_default, "d": f_default, "upper": f_upper, "lower": f_lower,
     "length": f_length, "count": f_length, "abs": f_abs, "string": f_string,
     "join": f_join, "first": f_first, "last": f_last, "list": f_list, "sort": f_sort,
     "sum": f_sum, "trim": f_trim, "capitalize": f_capitalize, "max": f_max, "min": f_min,
-    "int": f_int, "replace": f_replace, "safe": f_safe, "truncate": f_truncate, "unique": f_unique,
+    "int": f_int, "replace": f_replace, "safe": f_safe, "truncate": f_truncate, "unique": f_unique, "attr": f_attr,
 }
 
 
